@@ -102,12 +102,20 @@ func pathOne(osn, s string) string {
 // goroutine with a deadline and a call that misses it is shown as "loop".  An abandoned goroutine spins until
 // the process ends, so only the first maxRelLeaks inputs on which the oracle loops are really tried on avfs
 // (deadline 300 ms); on the others avfs is ASSUMED to loop as well (counted as outcome:rel-loop-assumed).
-// Where the oracle returns, avfs gets 20 s; not returning is then reported as rel=loop against the oracle's answer.
-var relLeaks, relAssumed int
+// Where the oracle returns, avfs gets 3 s (the call takes microseconds); not returning is reported as rel=loop
+// against the oracle's answer, and after maxRelHangs such inputs avfs.Rel is no longer called in this run
+// (rel=notcalled, which no model or oracle answer equals).
+var relLeaks, relHangs, relAssumed int
 
-const maxRelLeaks = 4
+const (
+	maxRelLeaks = 4
+	maxRelHangs = 6
+)
 
 func avfsRel(v *memfs.MemFS, a, c string, oracleLoops bool) string {
+	if relHangs >= maxRelHangs {
+		return "notcalled"
+	}
 	if oracleLoops && relLeaks >= maxRelLeaks {
 		relAssumed++
 		return "loop"
@@ -116,7 +124,7 @@ func avfsRel(v *memfs.MemFS, a, c string, oracleLoops bool) string {
 	go func() {
 		done <- guard(func() string { return showRel(avfs.Rel(v, a, c)) })
 	}()
-	d := 20 * time.Second
+	d := 3 * time.Second
 	if oracleLoops {
 		d = 300 * time.Millisecond
 	}
@@ -124,9 +132,10 @@ func avfsRel(v *memfs.MemFS, a, c string, oracleLoops bool) string {
 	case r := <-done:
 		return r
 	case <-time.After(d):
-		relLeaks++
-		if relLeaks > 3*maxRelLeaks {
-			panic("avfs.Rel did not return on too many inputs of this run; last: " + tok(a) + " " + tok(c))
+		if oracleLoops {
+			relLeaks++
+		} else {
+			relHangs++
 		}
 		return "loop"
 	}
